@@ -30,7 +30,9 @@ PROP = "C15"
 CP = "pandapower.contingency.contingency_parallel"
 MIN_OBLIGATIONS = 30
 NOT_DECIDED = ["not decided: multiprocessing.Pool.map preserves task order and pickles the net per chunk (assumed library contract)",
-               "not decided: the per-case power flows (same function in both modes, A-PURE)"]
+               "not decided: the per-case power flows (same function in both modes, A-PURE)",
+               "not decided deductively (bounded native stand-in only): the task list of the parallel path (which cases, in which order: ties in the "
+               "maxima go to the first case)"]
 
 
 def configure(it):
@@ -104,6 +106,15 @@ def run(vc):
                             p.prove(f"worker:returns-result-columns[{el}]", _eq_x(got.e, net.fields.raw(f"res_{el}").cols[var]),
                                     meta=dict(clause="worker"))
             vc.explore(f"_run_single_contingency[fails={fails},raise_errors={raise_errors}]", hw, max_paths=20)
+
+    if not hasattr(vc, "native_standins"):
+        vc.native_standins = []
+    vc.native_standins.append(dict(
+        name="run_contingency_parallel against run_contingency on fixed networks",
+        bound="case9, case14, a ring with a parallel line, a network of double circuits with an unsorted line index (exact ties in the N-1 "
+              "maxima, cases given in table order); n_procs in 1..3; every key and value of the result dictionaries incl. cause_element / "
+              "cause_index (the task list of the parallel path -- which cases, in which order -- is not under a deductive contract)",
+        script="from replaylib.contingency import main_parallel\nmain_parallel()\n", timeout=1500))
 
 
 def classify(ob, model):
